@@ -12,6 +12,9 @@ def run(chk):
     chk.assumptions += common.ASSUME
     common.mc(chk, properties=['PurgeFrame'])
     common.gen_tt(chk, 'rm', 'Init_Many', 'Next_Rm', 6, None, thorough_seeds=6)
+    # the pattern is matched against the RECORDED original name, whatever lives at that location now (a symbolic link to
+    # something with another name)
+    common.gen_tt(chk, 'rm-location-retaken', 'Init_ManyOcc', 'Next_Rm', 8, None, thorough_seeds=3)
     # "exactly the matching entries" also when the trash holds entries that cannot be read (no Path, unreadable, not an
     # info file), in any directory order: the malformed neighbours must not hide matching entries listed after them
     groups = [g for g in stages.generate(chk, 'rm-among-malformed', 'Init_Junk', 'Next_Junk', dict(common.C, MaxObj=9, GenLevel=1))
